@@ -126,6 +126,12 @@ def rq_api(case, ctx):
                 "pidx0": [int(x) for x in p0.index],
                 "pidx": [int(x) for x in p1.index],
             })
+            if case.get("table"):
+                names = gen.CHROMNAMES
+                pj = c.matrix(balance=False, as_pixels=True, join=True, chunksize=chunk)[i0:i1, j0:j1]
+                out[-1]["joined"] = [[names.index(str(a)), int(b), int(cc), names.index(str(d)), int(e), int(f), int(v)]
+                                     for a, b, cc, d, e, f, v in zip(pj["chrom1"], pj["start1"], pj["end1"], pj["chrom2"],
+                                                                    pj["start2"], pj["end2"], pj["count"])]
         return out
     return {"q": _with_cooler(case, path, run)}
 
